@@ -24,6 +24,9 @@ func ParseTargetType(targetCtx string) string {
 			targetType = localVarType
 		} else if fieldType != "" {
 			targetType = fieldType
+		} else if assignedType := assignedTypes[targetCtx]; assignedType != "" {
+			// no declaration in sight: the type of the object last assigned to the name
+			targetType = assignedType
 		}
 	}
 
